@@ -92,6 +92,8 @@ fn resource_abort_explains(sc: &Scenario, results: &[Vec<String>], final_audit: 
 }
 
 fn run_controlled(si: usize, sc: &Scenario, prefix: &[u8], bound: u32, allowed: &BTreeMap<String, Vec<usize>>) -> ExecResult {
+    // scenarios named pool1-*: the inline execution holds one process-wide lock, the stand-in for a single pool worker
+    axmosdb::verif::set_inline_single_worker(sc.name.starts_with("pool1-"));
     let mut r = ExecResult { scenario: si, prefix: prefix.to_vec(), ..Default::default() };
     let (db, dir) = match fresh_db(sc) {
         Ok(x) => x,
